@@ -1,6 +1,7 @@
 package hx
 
 import (
+	"fmt"
 	"strconv"
 	"strings"
 
@@ -19,8 +20,10 @@ import (
 func BuildVia(t *rapid.T, tab Table) (qframe.QFrame, string) {
 	switch rapid.SampledFrom([]string{"new", "new", "csv", "apply"}).Draw(t, "origin") {
 	case "csv":
-		if qf, ok := buildFromCSV(tab); ok && readsBackAs(qf, tab) {
-			return qf, "origin:csv"
+		// (fields quoted throughout, or only where the text needs it: a document without any quote is a history too)
+		minimal := rapid.Bool().Draw(t, "csvminimalquotes")
+		if qf, ok := buildFromCSV(tab, minimal); ok && readsBackAs(qf, tab) {
+			return qf, fmt.Sprintf("origin:csv(minimal quoting=%v)", minimal)
 		}
 		return Build(tab), "origin:new(csv-fallback)"
 	case "apply":
@@ -30,6 +33,16 @@ func BuildVia(t *rapid.T, tab Table) (qframe.QFrame, string) {
 		return Build(tab), "origin:new(apply-fallback)"
 	}
 	return Build(tab), "origin:new"
+}
+
+// FromCSV returns the frame ReadCSV makes of a CSV rendering of tab (fields quoted only where needed when minimal is
+// set), if the table can be told in CSV and reads back as itself.
+func FromCSV(tab Table, minimal bool) (qframe.QFrame, bool) {
+	qf, ok := buildFromCSV(tab, minimal)
+	if !ok || !readsBackAs(qf, tab) {
+		return qframe.QFrame{}, false
+	}
+	return qf, true
 }
 
 func readsBackAs(qf qframe.QFrame, tab Table) bool {
@@ -51,7 +64,14 @@ func csvField(sb *strings.Builder, s string) {
 }
 
 // buildFromCSV: not every table can be told in CSV (null and "" cannot both be told, CR cannot be told).
-func buildFromCSV(tab Table) (qframe.QFrame, bool) {
+func buildFromCSV(tab Table, minimal bool) (qframe.QFrame, bool) {
+	csvField := func(sb *strings.Builder, s string) {
+		if minimal && !strings.ContainsAny(s, "\",\n") {
+			sb.WriteString(s)
+			return
+		}
+		csvField(sb, s)
+	}
 	if len(tab.Cols) == 0 {
 		return qframe.QFrame{}, false
 	}
